@@ -36,14 +36,24 @@ func runC31(c *core.Ctx) {
 	pbh := eng.Obj(c, pkOntHS, "PutBlockHeader")
 	ucp := eng.Obj(c, pkOntHS, "UpdateConsensusPeer")
 	if fn := c.Fn(pkOntHS, "ONTHandler.SyncBlockHeader"); fn != nil && vh != nil && pbh != nil && ucp != nil {
-		for _, ci := range ir.CallsTo(fn, pbh, ucp) {
-			hdr := ci.Common().Args[2]
-			g := eng.NamedGuard{Name: "verifyHeader(same header) err==nil", G: ir.ErrNil(func(cl *ssa.Call) bool {
-				return ir.CalleeIs(cl, vh) && sameValue(cl.Common().Args[2], hdr)
-			})}
-			eng.Dominates(c, "C31.recorded-only-if-verified", fn, g, []ir.Sink{{Instr: ci, Note: callDesc(ci)}}, callDesc(ci), nil)
+		// in SyncBlockHeader itself, or in a same-package helper that verifies and records one header
+		hosts, releaseHosts := hostsWithHelpers(fn)
+		nRec := 0
+		for _, host := range hosts {
+			if host != fn && len(ir.CallsTo(host, pbh, ucp)) > 0 {
+				c.Attribute(host, fn)
+			}
+			for _, ci := range ir.CallsTo(host, pbh, ucp) {
+				nRec++
+				hdr := ci.Common().Args[2]
+				g := eng.NamedGuard{Name: "verifyHeader(same header) err==nil", G: ir.ErrNil(func(cl *ssa.Call) bool {
+					return ir.CalleeIs(cl, vh) && sameValue(cl.Common().Args[2], hdr)
+				})}
+				eng.Dominates(c, "C31.recorded-only-if-verified", host, g, []ir.Sink{{Instr: ci, Note: callDesc(ci)}}, callDesc(ci), nil)
+			}
 		}
-		c.Floor("PutBlockHeader/UpdateConsensusPeer calls in ont SyncBlockHeader", len(ir.CallsTo(fn, pbh, ucp)), 2)
+		releaseHosts()
+		c.Floor("PutBlockHeader/UpdateConsensusPeer calls in ont SyncBlockHeader", nRec, 2)
 	}
 	// UpdateConsensusPeer
 	pcp := eng.Obj(c, pkOntHS, "putConsensusPeers")
